@@ -251,7 +251,7 @@ func coordOption(c *CCase) *coordinator.Option {
 
 // runCoordImpl runs the real coordinator once on the scripted case
 func runCoordImpl(c *CCase) (obs CObs) {
-	o, _ := runCoordImpl2(c, false)
+	o, _, _ := runCoordImpl2(c, false)
 	return o
 }
 
@@ -259,7 +259,7 @@ func runCoordImpl(c *CCase) (obs CObs) {
 // time on the same Coordinator object against the same scripted reports: the coordinator is
 // long-lived in a deployment, and a cycle is a function of what the shards report in it - so the
 // second observation has to be an outcome of the model for the same input as well
-func runCoordImpl2(c *CCase, again bool) (obs CObs, obs2 *CObs) {
+func runCoordImpl2(c *CCase, again bool) (obs CObs, obs2 *CObs, obs3 *CObs) {
 	obs = CObs{Scales: []int64{}, Reqs: make([][]CReq, len(c.Probes))}
 	for i := range obs.Reqs {
 		obs.Reqs[i] = []CReq{}
@@ -302,8 +302,30 @@ func runCoordImpl2(c *CCase, again bool) (obs CObs, obs2 *CObs) {
 			_ = co.VerifRunOnce()
 		}()
 		obs2 = &o2
+		// third cycle, same Coordinator: the explorer has forgotten everything (all targets were removed
+		// and discovered again, none probed yet) - an estimate of an earlier cycle must not be used
+		if !o2.Crashed && len(c.Explore) > 0 {
+			o3 := CObs{Scales: []int64{}, Reqs: make([][]CReq, len(c.Probes))}
+			for i := range o3.Reqs {
+				o3.Reqs[i] = []CReq{}
+			}
+			mgr.obs = &o3
+			mgr.calls = 0
+			for k := range explore {
+				delete(explore, k)
+			}
+			func() {
+				defer func() {
+					if r := recover(); r != nil {
+						o3.Crashed = true
+					}
+				}()
+				_ = co.VerifRunOnce()
+			}()
+			obs3 = &o3
+		}
 	}
-	return obs, obs2
+	return obs, obs2, obs3
 }
 
 // ---- line encoding (must match Kvass/Driver/Coord.lean) ----
@@ -651,8 +673,9 @@ func runCoord(a Args) *Result {
 	}
 
 	type item struct {
-		c *CCase
-		o CObs
+		c       *CCase
+		o       CObs
+		emptied bool // third cycle: the explorer has forgotten its estimates
 	}
 	var items []item
 	var lines []string
@@ -660,11 +683,23 @@ func runCoord(a Args) *Result {
 	for _, c := range cases {
 		outs := map[string]bool{}
 		for k := 0; k < runs; k++ {
-			o1, o2 := runCoordImpl2(c, true)
+			o1, o2, o3 := runCoordImpl2(c, true)
 			both := []CObs{o1}
 			if o2 != nil {
 				both = append(both, *o2)
 				res.count("second_cycle_on_same_coordinator")
+			}
+			if o3 != nil {
+				c3 := *c
+				c3.Explore = []CSt{}
+				o := *o3
+				line := encCoord(0, &c3, &o)
+				if !seen[line] {
+					seen[line] = true
+					res.count("third_cycle_explorer_forgot")
+					items = append(items, item{&c3, o, true})
+					lines = append(lines, encCoord(len(items)-1, &c3, &o))
+				}
 			}
 			for bi := range both {
 				o := both[bi]
@@ -680,7 +715,7 @@ func runCoord(a Args) *Result {
 				if bi == 1 {
 					res.count("second_cycle_differs_from_first")
 				}
-				items = append(items, item{c, o})
+				items = append(items, item{c, o, false})
 				lines = append(lines, encCoord(len(items)-1, c, &o))
 			}
 		}
@@ -720,6 +755,18 @@ func runCoord(a Args) *Result {
 		full := map[string]interface{}{"case": it.c, "observed": it.o}
 		if i < 3 {
 			res.addSample(full)
+		}
+		if it.emptied && a.wants("C20") {
+			bad := false
+			for _, v := range matched {
+				if v != "1" {
+					bad = true
+				}
+			}
+			if bad {
+				res.ImplViol = capViol(res.ImplViol, Violation{Property: "C20", Clause: "staleEstimate", Signature: "C20/staleEstimate",
+					What: "in a later cycle of the same coordinator the explorer has no estimate for any target (all were removed and discovered again, none probed yet), yet the cycle is not the one of a coordinator that sees no estimate: an estimate of an earlier cycle was used for a first assignment", Case: full, Line: lines[i]}, 2)
+			}
 		}
 		for p, v := range matched {
 			if v != "1" && a.wants(p) {
